@@ -186,10 +186,14 @@ func (w *worker[T, JobType]) releaseWaiters(processing uint32) {
 		return
 	}
 
-	// Only release waiters if worker is paused or if running with an empty queue
-	if w.IsPaused() || (w.IsRunning() && w.queues.Len() == 0) {
-		// Broadcast to all waiters to signal they can continue
+	// Only release waiters if worker is not running or if running with an empty queue
+	if !w.IsRunning() || w.queues.Len() == 0 {
+		// Broadcast to all waiters to signal they can continue.
+		// The lock keeps the broadcast from slipping between a waiter's
+		// condition check and its Wait, which would lose the wake-up.
+		w.mx.Lock()
 		w.waiters.Broadcast()
+		w.mx.Unlock()
 	}
 }
 
